@@ -135,6 +135,16 @@ func crlf(r *rand.Rand) string {
 
 func noiseHeader(r *rand.Rand) Header {
 	opts := []string{"Server: sim", "Date: Mon, 01 Jan 2024 00:00:00 GMT", "X-Content-Type: text/html", "Content-Length: 5", "Vary: Accept", "Set-Cookie: a=b", "Content-Typ: text/html", "XContent-Type: text/html", "Link: <https://x/>; rel=\"alternate\"", "Cache-Control: max-age=0", "X-Location: https://evil.example/", "Content-Language: en"}
+	if r.Intn(8) == 0 {
+		// one very long header line (longer than any read buffer) whose value happens to contain text that looks like another header
+		inner := []string{"Content-Type: application/activity+json", "Content-Type: application/json", "Location: https://127.0.0.1:9/from-padding", "Content-Type: application/jrd+json"}[r.Intn(4)]
+		name := "X-Padding: "
+		k := 4096 - len(name) + r.Intn(5) - 2 // the inner text starts within 2 bytes of offset 4096
+		if r.Intn(3) == 0 {
+			k = 8192 - len(name) + r.Intn(5) - 2
+		}
+		return Header{Raw: name + strings.Repeat("p", k) + inner + crlf(r), Class: "noise"}
+	}
 	return Header{Raw: opts[r.Intn(len(opts))] + crlf(r), Class: "noise"}
 }
 
@@ -194,6 +204,14 @@ func Response(r *rand.Rand, o HTTPOpts) RespSpec {
 			s.Headers = append(s.Headers, Header{Raw: "Content-Type: " + t + param + crlf(r), Class: "ct", Essence: t})
 		case x < 65:
 			t := []string{"text/html", "application/jsonx", "application/xml", "text/plain", "application/activity", "json/application", "application/x-json", "image/png", "application/jrd+json", "application/activity+json", "*/*", "application/*", "*/json", "*/activity+json"}[r.Intn(14)]
+			if r.Intn(2) == 0 {
+				// near misses: a tolerated type continued by one more token character (any of them) and a suffix
+				tc := "!#$%&'*+-.^_`|~x7"
+				t = tolerated[r.Intn(len(tolerated))] + string(tc[r.Intn(len(tc))]) + []string{"seq", "patch+json", "x", "stream", "v2"}[r.Intn(5)]
+				if r.Intn(4) == 0 {
+					t = []string{"x-", "vnd.", "not"}[r.Intn(3)] + t
+				}
+			}
 			s.Headers = append(s.Headers, Header{Raw: "Content-Type: " + t + crlf(r), Class: "ct", Essence: t})
 		case x < 75:
 			t := []string{"", "application", "/json", "application/", "json", ";charset=utf-8", "application /json", "*"}[r.Intn(8)]
